@@ -32,6 +32,8 @@ Definition content_is (fs : fsys) (e : fpath * option bytes) : bool :=
 """
 
 EXEC_LOG = []
+DISTURB_LOG = []      # st_mtime of the files written by the mid-run disturbance, in order
+TASKS = {}
 _task = None
 
 
@@ -46,7 +48,7 @@ def make_task():
     def c04_make(spec, wrap=0):
         from redun.file import File
         cls = fv.classes()
-        EXEC_LOG.append(1)
+        EXEC_LOG.append("make")
         out = []
         for s in spec:
             for p, data in spec_files(s):
@@ -62,8 +64,163 @@ def make_task():
                 out.append(s[1])
         return wrap_result(out, wrap)
 
+    def values_of(spec):
+        cls = fv.classes()
+        return [make_obj(cls, *spec_target(s)) for s in spec if spec_target(s) is not None]
+
+    @task(name="c04_publish", namespace="verif_c04", version="1")
+    def c04_publish(spec, report):
+        # a dependent cached job: its result holds the same external values and what it saw in them
+        EXEC_LOG.append("publish")
+        return {"value": values_of(spec), "seen": sorted(fv.snapshot().items())}
+
+    @task(name="c04_disturb", namespace="verif_c04", version="1", cache=False)
+    def c04_disturb(dops, report):
+        # stands for the outside world (or an uncached step) acting on the outputs while the execution runs
+        for o in dops:
+            apply_external(o, DISTURB_LOG)
+        return len(dops)
+
+    @task(name="c04_then", namespace="verif_c04", version="1")
+    def c04_then(done, spec, report):
+        return c04_publish(spec, report)
+
+    @task(name="c04_main", namespace="verif_c04", version="1")
+    def c04_main(spec, dops):
+        report = c04_make(spec, 0)
+        if not dops:
+            return c04_publish(spec, report)
+        return c04_then(c04_disturb(dops, report), spec, report)
+
+    TASKS.update(make=c04_make, publish=c04_publish, disturb=c04_disturb, main=c04_main)
     _task = c04_make
     return _task
+
+
+def apply_external(o, log):
+    """one out-of-band change; appends (path, st_mtime) of a written file to `log` (None if nothing was done)"""
+    if o[0] == "write":
+        path = fv.render_f(o[1])
+        if os.path.dirname(path):
+            os.makedirs(os.path.dirname(path), exist_ok=True)
+        with open(path, "wb") as f:
+            f.write(o[2])
+        if o[3] is not None:
+            os.utime(path, (o[3], o[3]))
+        log.append(("write", o[1], o[2], os.stat(path).st_mtime))
+    elif o[0] == "remove":
+        with contextlib.suppress(FileNotFoundError):
+            os.remove(fv.render_f(o[1]))
+        log.append(("remove", o[1]))
+    elif o[0] == "touch":
+        path = fv.render_f(o[1])
+        if not os.path.exists(path):
+            if os.path.dirname(path):
+                os.makedirs(os.path.dirname(path), exist_ok=True)
+            open(path, "wb").close()
+        os.utime(path, (o[2], o[2]))
+        log.append(("touch", o[1], os.stat(path).st_mtime))
+    elif o[0] == "rmtree":
+        shutil.rmtree(fv.render_d(o[1]), ignore_errors=True)
+        log.append(("rmtree", o[1]))
+    elif o[0] == "swap":
+        path = fv.render_f(o[1])
+        if not os.path.isfile(path) or os.path.getsize(path) == 0:
+            return
+        st = os.stat(path)
+        with open(path, "rb") as f:
+            old = f.read()
+        with open(path, "wb") as f:
+            f.write(swapped(old))
+        os.utime(path, ns=(st.st_atime_ns, st.st_mtime_ns))
+        log.append(("write", o[1], swapped(old), os.stat(path).st_mtime))
+    else:
+        raise ValueError(o)
+
+
+def run_interleaved(spec, dops):
+    """run 1: make, publish.  run 2 (same scheduler): make (replayed while intact), an uncached step applies
+    `dops` to the outputs, then the dependent cached job publish is considered.
+    Returns facts for the oracle and the equivalent model history [HRun; dops; HRun] with its codes."""
+    from redun import Scheduler
+    from redun.config import Config
+    import logging
+    make_task()
+    cls = fv.classes()
+    with fv.tempcwd("rv_c04i_"):
+        logging.getLogger("redun").setLevel(logging.CRITICAL)
+        s = Scheduler(config=Config({"backend": {"db_uri": "sqlite:///:memory:"}}))
+        s.logger.disabled = True
+        s.load()
+        ticks = fv.Intern()
+        n0 = len(EXEC_LOG)
+        first = s.run(TASKS["main"](spec, ()))
+        tags1 = EXEC_LOG[n0:]
+        mts1 = [(p, ticks(os.stat(fv.render_f(p)).st_mtime)) for p in sorted({p for sp in spec for p, _ in spec_files(sp)})]
+        recorded = [(type(v).__name__, v._hash or v.hash) for v in first["value"]]
+        del DISTURB_LOG[:]
+        n1 = len(EXEC_LOG)
+        err, second = None, None
+        try:
+            second = s.run(TASKS["main"](spec, tuple(dops)))
+        except FileNotFoundError as e:
+            err, code = repr(e), 2
+        except Exception as e:  # noqa
+            err, code = repr(e), 98
+        tags2 = EXEC_LOG[n1:]
+        if err is None:
+            code = 1 if "publish" in tags2 else 0
+        fresh = []
+        for sp in spec:
+            tgt = spec_target(sp)
+            if tgt is None:
+                continue
+            try:
+                fresh.append(make_obj(cls, *tgt).hash)
+            except FileNotFoundError:
+                fresh.append(None)
+        files = fv.snapshot()
+        conc = [("run", mts1)]
+        for o in DISTURB_LOG:
+            conc.append((o[0], o[1], o[2], ticks(o[3])) if o[0] == "write" else
+                        (o[0], o[1], ticks(o[2])) if o[0] == "touch" else o)
+        conc.append(("run", []))
+        return {"spec": spec, "dops": list(dops), "ops": conc, "codes": [1] + [3] * (len(conc) - 2) + [code],
+                "tags1": tags1, "tags2": tags2, "code": code, "error": err,
+                "leaves": [{"class": c, "recorded": h, "fresh": f} for (c, h), f in zip(recorded, fresh)],
+                "second": None if second is None else
+                {"seen": dict(second["seen"]), "value": [(type(v).__name__, v._hash) for v in second["value"]]},
+                "files": files}
+
+
+def interleaved_term(variant, run):
+    return ("(let r := hcodes %s %s (mkH [] None 0) %s in list_eq Nat.eqb (fst r) %s)" % (
+        fv.cq_variant(variant), cq_list([cq_spec(s) for s in run["spec"]]),
+        cq_list([cq_hop(o) for o in run["ops"]]), cq_list([f"{c}%nat" for c in run["codes"]])))
+
+
+def judge_interleaved(run):
+    """the spec at the moment the dependent job is considered: replay only if every mutable external value's
+    fresh hash equals the recorded one; otherwise re-execute without raising, with a current result"""
+    bad = []
+    if run["tags1"] != ["make", "publish"]:
+        bad.append(("mid-run:first-run-did-not-execute-make-and-publish", f"first run executed {run['tags1']}"))
+    if run["code"] in (2, 98):
+        bad.append((f"mid-run:run-raises:{run['error']}"[:200], f"the second run raised {run['error']}"))
+        return bad
+    changed = [x for x in run["leaves"] if x["class"] not in ("IFile", "IFileSet", "IDir")
+               and (x["fresh"] is None or x["fresh"] != x["recorded"])]
+    if run["code"] == 0 and changed:
+        bad.append((f"mid-run:replayed-although-invalid:{changed[0]['class']}",
+                    f"after an uncached step changed the output during the run, the dependent cached job was replayed "
+                    f"although its {changed[0]['class']} no longer has the recorded hash"))
+    if run["code"] == 1:
+        if run["second"]["seen"] != run["files"]:
+            bad.append(("mid-run:new-result-not-current", "the re-executed job's result does not show the current bytes"))
+        for (c, h), x in zip(run["second"]["value"], run["leaves"]):
+            if h != x["fresh"]:
+                bad.append((f"mid-run:new-result-not-current:{c}", f"the re-executed job returned a {c} with a stale hash"))
+    return bad
 
 
 def wrap_result(out, wrap):
@@ -527,8 +684,40 @@ class Check(PropertyCheck):
                 self.sample({"spec": repr(sp)[:300], "ops": repr(run["ops"])[:300], "codes": run["codes"]}, 3)
         return self.hruns
 
+    def interleavings(self):
+        """histories with a change DURING an execution (between two cached jobs of the same run)"""
+        if hasattr(self, "iruns"):
+            return self.iruns
+        p, q = ((0,), 0), ((0, 2), 1)
+        todo = []
+        for fam in ("FBase", "FContent"):
+            shapes = [[("file", fam, p, b"ab")], [("dir", fam, (0,), ((p, b"ab"), (q, b"b")))],
+                      [("set", fam, (0,), True, ((p, b"ab"), (q, b"b")))],
+                      [("plain", 7), ("file", fam, p, b"ab"), ("dir", fam, (1,), ((((1,), 1), b"x"),))]]
+            for sp in shapes:
+                for dops in ([("write", p, b"second, longer version", None)], [("remove", p)], [("swap", p)],
+                             [("touch", p, 6)]):
+                    todo.append((sp, dops))
+        todo.append(([("file", "FImm", p, b"ab")], [("remove", p)]))
+        todo.append(([("file", "FContent", p, b"ab")], []))
+        g = HistGen(self.rng)
+        for _ in range(8 if self.tier == "quick" else 300):
+            sp = g.spec()
+            ops = [o for o in g.history(sp) if o[0] != "run"][:self.rng.randint(1, 3)]
+            todo.append((sp, ops))
+        self.iruns = []
+        for sp, dops in todo:
+            run = run_interleaved(sp, dops)
+            self.iruns.append(run)
+            self.stat("mid_run_change", "+".join(o[0] for o in dops) or "none")
+            self.stat("mid_run_outcome", {0: "dependent job replayed", 1: "dependent job re-executed",
+                                          2: "raised FileNotFoundError"}.get(run["code"], f"other:{run['code']}"))
+            self.count(repr((sp, dops)))
+        return self.iruns
+
     def correspond(self):
         hruns = self.histories()
+        iruns = self.interleavings()
         variant = self.variant
         if variant is None:
             # translator failed closed: compare with the variant the real code exhibits, so that a change of
@@ -556,6 +745,14 @@ class Check(PropertyCheck):
                 "\n".join(diags) + "".join(
                     f"\nmismatch: spec={hruns[i]['spec']!r} ops={hruns[i]['ops']!r} codes={hruns[i]['codes']} "
                     f"execs={hruns[i]['execs']}" for i in failing[:5]))
+        terms = [interleaved_term(variant, r) for r in iruns]
+        ok, failing, diags = run_bool_cases("C04i", ["Base.Decimal", "Base.Lit", "Model.FileVal"], PREAMBLE, terms, chunk=20)
+        self.ob("correspondence", f"model validity decision == real Scheduler on {len(terms)} executions in which an "
+                "uncached step rewrites / deletes / touches the outputs between two cached jobs of the same execution "
+                "(dependent job replayed / re-executed / raised)", ok and not failing,
+                "\n".join(diags) + "".join(
+                    f"\nmismatch: spec={iruns[i]['spec']!r} ops={iruns[i]['ops']!r} codes={iruns[i]['codes']}"
+                    for i in failing[:5]))
 
     # ------------------------------------------------------------------
     def judge(self, run):
@@ -607,8 +804,18 @@ class Check(PropertyCheck):
                 upto = [i for i, o in enumerate(run["abstract"]) if o[0] == "run"][idx]
                 self.findings.append(Finding(key, what, {"kind": "history", "spec": repr(run["spec"]),
                                                          "wrap": run.get("wrap", 0), "ops": repr(run["abstract"][:upto + 1]), "run": idx, "what": what}))
+        for run in self.interleavings():
+            nruns += 2
+            for key, what in judge_interleaved(run):
+                if key in keys:
+                    continue
+                keys.add(key)
+                self.findings.append(Finding(key, what, {"kind": "interleaved", "spec": repr(run["spec"]),
+                                                         "mid_run_ops": repr(run["dops"]), "what": what,
+                                                         "leaves": run["leaves"], "executed_in_run_2": run["tags2"]}))
         self.evaluations += nruns
         self.stat("oracle", "histories", len(hruns) + 1)
+        self.stat("oracle", "executions_with_mid_run_change", len(self.interleavings()))
         self.stat("oracle", "runs_judged", nruns)
         self.ob("oracle", f"implementation oracle ran on {len(hruns) + 1} histories / {nruns} runs of the real Scheduler "
                 "(no exception escapes run; a replay only with every mutable external value unchanged; a re-execution "
@@ -628,6 +835,18 @@ class Check(PropertyCheck):
                 print("replay: still fails:", bad[0][0], "-", bad[0][1])
                 return 1
             print("replay: the property holds on this history now")
+            return 0
+        if r.get("kind") == "interleaved":
+            run = run_interleaved(eval(r["spec"]), eval(r["mid_run_ops"]))
+            print("   run 1 executed", run["tags1"], "; run 2 with mid-run", run["dops"], "executed", run["tags2"],
+                  "->", {0: "dependent job replayed", 1: "dependent job re-executed"}.get(run["code"], run["error"]))
+            for x in run["leaves"]:
+                print("   ", x["class"], "recorded", x["recorded"] and x["recorded"][:8], "fresh", x["fresh"] and x["fresh"][:8])
+            bad = judge_interleaved(run)
+            if bad:
+                print("replay: still fails:", bad[0][0], "-", bad[0][1])
+                return 1
+            print("replay: the property holds on this execution now")
             return 0
         print("replay: nothing to replay (no failing input was found); broken obligations:",
               json.dumps(doc.get("broken_obligations", []))[:3000])
